@@ -112,6 +112,8 @@ func (e *Exec) materialise1(name string, t types.Type) Value {
 			if pol == 0 {
 				return &PtrV{}
 			}
+			e.declareInput(nn, "Bool")
+			e.assume(nn)
 		} else {
 			e.declareInput(nn, "Bool")
 			if !e.branch(&BoolV{T: nn}) {
@@ -144,17 +146,19 @@ func (e *Exec) materialise1(name string, t types.Type) Value {
 		m.Lazy = &LazyMap{Name: name, VT: u.Elem()}
 		return &MapV{M: m}
 	case *types.Interface:
-		cands, ok := e.lazyIface[ifaceKey(name)]
+		cands, ok := e.ifaceCandidates(ifaceKey(name))
 		if !ok {
 			e.unsupported("lazy interface value %s (%s) without candidate types", name, t.String())
 		}
 		for i, ct := range cands {
 			if i == len(cands)-1 {
+				e.ifaceChosen(name, i)
 				return e.ifaceOf(name, ct)
 			}
 			sel := quoteSym(fmt.Sprintf("%s!dyn%d", name, i))
 			e.declareInput(sel, "Bool")
 			if e.branch(&BoolV{T: sel}) {
+				e.ifaceChosen(name, i)
 				return e.ifaceOf(name, ct)
 			}
 		}
@@ -180,7 +184,14 @@ func (e *Exec) ifaceOf(name string, ct types.Type) Value {
 	if ct == nil {
 		return &IfaceV{}
 	}
-	v := e.force(&LazyV{Name: name + ".(" + shortType(ct) + ")", T: ct})
+	inner := name + ".(" + shortType(ct) + ")"
+	if _, isPtr := ct.Underlying().(*types.Pointer); isPtr {
+		// parsers never store a typed nil pointer in an interface field
+		if _, set := e.cfg.Bounds["nonnil:"+inner]; !set {
+			e.cfg.Bounds["nonnil:"+inner] = 1
+		}
+	}
+	v := e.force(&LazyV{Name: inner, T: ct})
 	if p, ok := v.(*PtrV); ok && p.O == nil {
 		// a typed nil pointer is not what parsers produce; use nil interface
 		return &IfaceV{}
